@@ -80,6 +80,12 @@ func (r *result) fail(class, format string, a ...interface{}) {
 	}
 }
 
+// failKnownClass records a failure whose class a known finding may match (the check decides); the remaining sessions
+// keep their full patience because such a failure is expected on every run
+func (r *result) failKnownClass(class string, detail interface{}, format string, a ...interface{}) {
+	r.Failures = append(r.Failures, failure{What: fmt.Sprintf(format, a...), Class: class, Detail: detail})
+}
+
 func (r *result) failDetail(class string, detail interface{}, format string, a ...interface{}) {
 	r.fail(class, format, a...)
 	r.Failures[len(r.Failures)-1].Detail = detail
@@ -386,11 +392,19 @@ func runLoopback(id string, v primitive.ProtocolVersion, comp primitive.Compress
 	return res
 }
 
-// v5: an envelope that does not fit one segment cannot be SENT (model: C15_tx_modern_large_refused). Observation.
-func probeOversizeSend(v primitive.ProtocolVersion, n int) *result {
+// v5: an envelope that does not fit one segment cannot be SENT (model: C15_tx_modern_large_refused; nothing splits
+// outgoing envelopes - a limitation outside C15's quantifier, reported as an observation). What IS required: the failed
+// write ends the connection - the request fails and both ends are closed - instead of leaving the peer waiting.
+//   dir "request":  the real client sends a QUERY of n bytes
+//   dir "response": the real client sends a small QUERY, the real server's handler answers with a Rows result of n bytes
+// The verdict is read off the state (request failed, client closed, server connection closed), not off a duration.
+func probeOversizeSend(v primitive.ProtocolVersion, n int, dir string) *result {
 	t0 := time.Now()
-	res := &result{Kind: "session", ID: fmt.Sprintf("oversize-send-v%d-%d", v, n), Mode: "oversize", Version: int(v), Compression: "NONE",
-		Script: map[string]interface{}{"request": frameSpec{Kind: "query", Sid: 5, Fill: "p", Seed: 1, N: n}}, Obs: map[string]interface{}{}, Failures: []failure{}}
+	if dir == "" {
+		dir = "request"
+	}
+	res := &result{Kind: "session", ID: fmt.Sprintf("oversize-%s-v%d-%d", dir, v, n), Mode: "oversize", Version: int(v), Compression: "NONE",
+		Script: map[string]interface{}{"dir": dir, "n": n}, Obs: map[string]interface{}{"dir": dir}, Failures: []failure{}}
 	defer func() { res.Millis = time.Since(t0).Milliseconds() }()
 	ctx, cancel := context.WithCancel(context.Background())
 	defer cancel()
@@ -408,26 +422,123 @@ func probeOversizeSend(v primitive.ProtocolVersion, n int) *result {
 		return res
 	}
 	defer cc.Close()
-	side := serveEcho(sc, false)
-	f, _ := frameSpec{Kind: "query", Sid: 5, Fill: "p", Seed: 1, N: n}.build(v)
+	reqN := n
+	if dir == "response" {
+		reqN = 10
+		go func() { // the server's user code: one request, one oversized response
+			f, err := sc.Receive()
+			if err != nil || f == nil {
+				return
+			}
+			big, _ := frameSpec{Kind: "rows", Sid: int(f.Header.StreamId), Fill: "p", Seed: 2, N: n}.build(v)
+			_ = sc.Send(big)
+		}()
+	} else {
+		_ = serveEcho(sc, false)
+	}
+	f, _ := frameSpec{Kind: "query", Sid: 5, Fill: "p", Seed: 1, N: reqN}.build(v)
 	ch, err := cc.Send(f)
 	delivered := false
 	if err == nil {
 		r, err2 := cc.Receive(ch)
 		delivered = err2 == nil && r != nil
+		if err2 != nil {
+			res.Obs["request_error"] = err2.Error()
+		}
+	} else {
+		res.Obs["send_error"] = err.Error()
 	}
-	_ = side
+	closedWithin := func(closed func() bool) bool {
+		deadline := time.Now().Add(patience())
+		for !closed() && time.Now().Before(deadline) {
+			time.Sleep(10 * time.Millisecond)
+		}
+		return closed()
+	}
+	clientClosed := closedWithin(cc.IsClosed)
+	serverClosed := closedWithin(sc.IsClosed)
 	res.Obs["delivered"] = delivered
-	res.Obs["client_closed"] = cc.IsClosed()
+	res.Obs["client_closed"] = clientClosed
+	res.Obs["server_closed"] = serverClosed
+	if !delivered && v.SupportsModernFramingLayout() && n > 131071 {
+		if !clientClosed || !serverClosed {
+			res.fail("oversize-send", "v%d, %s of %d bytes (does not fit one segment, the write fails): the request failed but the connection did not end - "+
+				"client connection closed: %v, server connection closed: %v (request error: %v)", v, dir, n, clientClosed, serverClosed, res.Obs["request_error"])
+		}
+	}
 	return res
 }
 
-// A peer that spells the compression name in lower case ("lz4", as the specification and the drivers do): observation
-// only - whether the real server answers STARTUP and one OPTIONS request.
-func probeLowercase(v primitive.ProtocolVersion) *result {
+// Protocol v2 with managed stream ids (client.ManagedStreamId) and the default MaxInFlight: strictly sequential requests,
+// never more than one in flight. Every one of them must be answered. (Known finding: ids are recycled FIFO from a pool
+// 1..MaxInFlight, v2 ids are one signed byte, so the request that is handed id 128 kills the connection.)
+func probeManaged(v primitive.ProtocolVersion, n int) *result {
 	t0 := time.Now()
-	res := &result{Kind: "session", ID: fmt.Sprintf("lowercase-compression-v%d", v), Mode: "lowercase", Version: int(v), Compression: "lz4",
-		Script: map[string]interface{}{"startup_compression": "lz4"}, Obs: map[string]interface{}{}, Failures: []failure{}}
+	res := &result{Kind: "session", ID: fmt.Sprintf("managed-ids-v%d-%d", v, n), Mode: "managed", Version: int(v), Compression: "NONE",
+		Script: map[string]interface{}{"sequential_requests": n, "stream_id": "managed", "max_in_flight": client.DefaultMaxInFlight}, Obs: map[string]interface{}{}, Failures: []failure{}}
+	defer func() { res.Millis = time.Since(t0).Milliseconds() }()
+	ctx, cancel := context.WithCancel(context.Background())
+	defer cancel()
+	server, addr, err := startServer(ctx, false)
+	if err != nil {
+		res.fail("harness", "server start: %v", err)
+		return res
+	}
+	defer server.Close()
+	clt := client.NewCqlClient(addr, nil)
+	clt.ReadTimeout = patience()
+	cc, sc, err := server.BindAndInit(clt, ctx, v, client.ManagedStreamId)
+	if err != nil {
+		res.fail("handshake", "handshake with a managed stream id failed: %v", err)
+		return res
+	}
+	defer cc.Close()
+	_ = serveEcho(sc, false)
+	maxId := 0
+	for i := 1; i <= n; i++ {
+		req := frame.NewFrame(v, client.ManagedStreamId, &message.Options{})
+		ch, err := cc.Send(req)
+		if err != nil {
+			res.fail("", "request #%d (managed stream id, nothing else in flight) was refused by Send: %v", i, err)
+			break
+		}
+		id := int(ch.StreamId())
+		if id > maxId {
+			maxId = id
+		}
+		r, err := cc.Receive(ch)
+		res.Frames += 2
+		if err != nil || r == nil {
+			detail := M{"request": i, "assigned_stream_id": id, "connection_closed": cc.IsClosed(), "answered_before": i - 1}
+			if v <= primitive.ProtocolVersion2 && id > 127 {
+				// exactly the known symptom: the id does not fit the one-byte stream id of protocol v2
+				res.failKnownClass("v2-managed-stream-id-overflow", detail, "v%d: sequential request #%d was assigned managed stream id %d (> 127, the largest id of "+
+					"protocol v%d); Send accepted it, it was never answered and the connection was closed: %v (requests #1..#%d were answered)", v, i, id, v, cc.IsClosed(), i-1)
+			} else {
+				res.failDetail("", detail, "v%d: sequential request #%d (managed stream id %d) got no response: %v; connection closed: %v", v, i, id, err, cc.IsClosed())
+			}
+			break
+		}
+		if r.Header.StreamId != int16(id) {
+			res.fail("", "request #%d: response on stream %d, request on stream %d", i, r.Header.StreamId, id)
+			break
+		}
+		if _, ok := r.Body.Message.(*message.Supported); !ok {
+			res.fail("", "request #%d: OPTIONS answered by %v", i, r.Header.OpCode)
+			break
+		}
+		res.Obs["answered"] = i
+	}
+	res.Obs["largest_stream_id"] = maxId
+	return res
+}
+
+// A STARTUP whose COMPRESSION names no algorithm the library knows: observation, compared with the model (the server adopts
+// a compression for which it has no compressor: the flagged response cannot be encoded, the failed write ends the connection).
+func probeUnknownCompression(v primitive.ProtocolVersion, name string) *result {
+	t0 := time.Now()
+	res := &result{Kind: "session", ID: fmt.Sprintf("unknown-compression-v%d", v), Mode: "unknowncomp", Version: int(v), Compression: name,
+		Script: map[string]interface{}{"startup_compression": name}, Obs: map[string]interface{}{}, Failures: []failure{}}
 	defer func() { res.Millis = time.Since(t0).Milliseconds() }()
 	ctx, cancel := context.WithCancel(context.Background())
 	defer cancel()
@@ -449,16 +560,17 @@ func probeLowercase(v primitive.ProtocolVersion) *result {
 		return res
 	}
 	_ = serveEcho(sconn, true)
-	p := newRawPeer(conn, v, primitive.CompressionLz4, 0)
+	p := newRawPeer(conn, v, primitive.CompressionNone, 0)
 	startup := message.NewStartup()
-	startup.Options["COMPRESSION"] = "lz4"
+	startup.Options[message.StartupOptionCompression] = name
 	if err := p.writeFrame(frame.NewFrame(v, 1, startup)); err != nil {
 		res.fail("harness", "write STARTUP: %v", err)
 		return res
 	}
-	_ = conn.SetReadDeadline(time.Now().Add(1500 * time.Millisecond))
-	f, err := p.frames.DecodeFrame(p.rd)
-	res.Obs["startup_answered"] = err == nil && f != nil
+	_ = conn.SetReadDeadline(time.Now().Add(shortTimeout))
+	raw, err := p.rawFrames.DecodeRawFrame(p.rd)
+	res.Obs["startup_answered"] = err == nil && raw != nil
+	res.Obs["connection_ended"] = err != nil && !isTimeout(err)
 	if err != nil {
 		res.Obs["error"] = err.Error()
 	}
@@ -467,6 +579,9 @@ func probeLowercase(v primitive.ProtocolVersion) *result {
 
 // =================================================================================================== raw client
 type rawScript struct {
+	// StartupComp: the spelling of the COMPRESSION option the raw client puts into STARTUP ("" = the canonical upper-case
+	// name). The specifications, Cassandra's SUPPORTED and the drivers write "lz4" / "snappy"; names are not case-sensitive.
+	StartupComp string      `json:"startup_compression,omitempty"`
 	Specs      []frameSpec `json:"specs"`
 	Plan       []segPlan   `json:"plan"` // over the envelopes of Specs (modern layout only); the sentinel is appended by the harness
 	Chunk      int         `json:"chunk"`
@@ -523,17 +638,56 @@ func runRawClient(id string, v primitive.ProtocolVersion, comp primitive.Compres
 	if comp != primitive.CompressionNone && comp != "" {
 		startup.SetCompression(comp)
 	}
+	if script.StartupComp != "" {
+		startup.Options[message.StartupOptionCompression] = script.StartupComp
+	}
 	if err := p.writeFrame(frame.NewFrame(v, 1, startup)); err != nil {
 		res.fail("harness", "write STARTUP: %v", err)
 		return res
 	}
-	hs, err := p.readFrame()
+	// the response to STARTUP, byte for byte: header and body as they are on the wire
+	_ = conn.SetReadDeadline(time.Now().Add(patience()))
+	rawHs, err := p.rawFrames.DecodeRawFrame(p.rd)
 	if err != nil {
-		res.fail("wire-format", "the response to STARTUP is not a plain (unframed) envelope: %v", err)
+		if script.StartupComp != "" {
+			res.fail(script.Class, "STARTUP (version %d) with COMPRESSION %q got no READY / AUTHENTICATE: %v", v, script.StartupComp, err)
+		} else {
+			res.fail("wire-format", "the response to STARTUP is not a plain (unframed) envelope: %v", err)
+		}
 		return res
 	}
-	res.Obs["startup_response"] = hs.Header.OpCode.String()
-	res.Obs["startup_response_compressed"] = hs.Header.Flags.Contains(primitive.HeaderFlagCompressed)
+	hsCompressed := rawHs.Header.Flags.Contains(primitive.HeaderFlagCompressed)
+	res.Obs["startup_response"] = rawHs.Header.OpCode.String()
+	res.Obs["startup_response_compressed"] = hsCompressed
+	if modern {
+		// native_protocol_v5.spec 2.3.1: the response to STARTUP is transmitted unframed; 2.4: the compression flag is
+		// "deprecated and ignored in protocol v5" - a peer reads the body as the message itself. Check exactly that.
+		asSpec := &frame.RawFrame{Header: rawHs.Header.DeepCopy(), Body: rawHs.Body}
+		asSpec.Header.Flags = asSpec.Header.Flags.Remove(primitive.HeaderFlagCompressed)
+		specF, specErr := plainRaw.ConvertFromRawFrame(asSpec)
+		okAsSpec := specErr == nil
+		if okAsSpec {
+			if a, isAuth := specF.Body.Message.(*message.Authenticate); isAuth && a.Authenticator == "" {
+				okAsSpec = false
+			}
+		}
+		if hsCompressed || !okAsSpec {
+			n := len(rawHs.Body)
+			if n > 12 {
+				n = 12
+			}
+			res.failKnownClass("v5-handshake-envelope-compressed", M{"header_flags": int(rawHs.Header.Flags), "opcode": rawHs.Header.OpCode.String(),
+				"body_length": len(rawHs.Body), "body_prefix": fmt.Sprintf("%x", rawHs.Body[:n]), "readable_with_flag_ignored": okAsSpec},
+				"v5, COMPRESSION %s: the unframed %v answering STARTUP has header flags %#02x (COMPRESSED set: %v) and a %d-byte body %x...; read as the "+
+					"specification says (flag ignored in v5) it is a well-formed message: %v", compName(comp), rawHs.Header.OpCode, int(rawHs.Header.Flags),
+				hsCompressed, len(rawHs.Body), rawHs.Body[:n], okAsSpec)
+		}
+	}
+	hs, err := p.rawFrames.ConvertFromRawFrame(rawHs)
+	if err != nil {
+		res.fail("wire-format", "the response to STARTUP does not decode: %v", err)
+		return res
+	}
 	sendOne := func(f *frame.Frame) error {
 		if !modern {
 			return p.writeFrame(f)
@@ -594,10 +748,10 @@ func runRawClient(id string, v primitive.ProtocolVersion, comp primitive.Compres
 			s.Compress = false
 		}
 		f, fl := s.build(v)
-		if comp == primitive.CompressionNone || comp == "" {
+		if comp == primitive.CompressionNone || comp == "" || s.Spare > 0 {
 			f.SetCompress(false)
 		}
-		d, env, err := describe(f, fl, s.Fill, s.Seed)
+		d, env, err := describe(f, fl, s.Fill, s.Seed, s.Spare)
 		if err != nil {
 			res.fail("harness", "cannot encode envelope %d: %v", i, err)
 			return res
@@ -621,11 +775,16 @@ func runRawClient(id string, v primitive.ProtocolVersion, comp primitive.Compres
 		}
 	} else {
 		for i, f := range frames {
-			if err := p.writeFrame(f.DeepCopy()); err != nil {
+			var err error
+			if all[i].Spare > 0 {
+				err = p.write(envs[i]) // the envelope with its spare bytes, as encoded above
+			} else {
+				err = p.writeFrame(f.DeepCopy())
+			}
+			if err != nil {
 				res.Obs["write_error"] = err.Error()
 				break
 			}
-			_ = i
 		}
 	}
 
@@ -745,7 +904,7 @@ func runRawClient(id string, v primitive.ProtocolVersion, comp primitive.Compres
 		}
 		for _, f := range srvSent {
 			k := bySidSpec[f.Header.StreamId]
-			d, _, err := describe(f, fills[k], all[k].Fill, all[k].Seed)
+			d, _, err := describe(f, fills[k], all[k].Fill, all[k].Seed, 0)
 			if err != nil {
 				res.fail("harness", "cannot describe response: %v", err)
 				break
@@ -899,7 +1058,7 @@ func runRawServer(id string, v primitive.ProtocolVersion, comp primitive.Compres
 			f.SetCompress(false)
 		}
 		sentReq[i], reqFills[i] = f.DeepCopy(), fl
-		d, _, err := describe(f, fl, s.Fill, s.Seed)
+		d, _, err := describe(f, fl, s.Fill, s.Seed, 0)
 		if err != nil {
 			res.fail("harness", "cannot describe request: %v", err)
 			return res
@@ -953,10 +1112,10 @@ func runRawServer(id string, v primitive.ProtocolVersion, comp primitive.Compres
 			s.Compress = false
 		}
 		f, fl := s.build(v)
-		if comp == primitive.CompressionNone || comp == "" {
+		if comp == primitive.CompressionNone || comp == "" || s.Spare > 0 {
 			f.SetCompress(false)
 		}
-		d, env, err := describe(f, fl, s.Fill, s.Seed)
+		d, env, err := describe(f, fl, s.Fill, s.Seed, s.Spare)
 		if err != nil {
 			res.fail("harness", "cannot encode response %d: %v", i, err)
 			return res
@@ -978,8 +1137,14 @@ func runRawServer(id string, v primitive.ProtocolVersion, comp primitive.Compres
 			res.Obs["write_error"] = err.Error()
 		}
 	} else {
-		for _, f := range frames {
-			if err := p.writeFrame(f.DeepCopy()); err != nil {
+		for i, f := range frames {
+			var err error
+			if all[i].Spare > 0 {
+				err = p.write(envs[i])
+			} else {
+				err = p.writeFrame(f.DeepCopy())
+			}
+			if err != nil {
 				res.Obs["write_error"] = err.Error()
 				break
 			}
